@@ -7,7 +7,6 @@ import (
 	"slices"
 	"strconv"
 	"sync"
-	"sync/atomic"
 	"testing/synctest"
 	"unsafe"
 )
@@ -394,7 +393,7 @@ func (k *Kernel) rememberMutex(mu *sync.Mutex) {
 //go:norace
 func (k *Kernel) anyKnownMutexLocked() bool {
 	for i := 0; i < k.nKnownMu; i++ {
-		if atomic.LoadInt32((*int32)(unsafe.Pointer(k.knownMu[i])))&1 != 0 {
+		if *(*int32)(unsafe.Pointer(k.knownMu[i]))&1 != 0 {
 			return true
 		}
 	}
@@ -402,11 +401,18 @@ func (k *Kernel) anyKnownMutexLocked() bool {
 	return false
 }
 
-// mutexLocked peeks at the locked bit of a sync.Mutex.
+// mutexLocked peeks at the locked bit of a sync.Mutex.  The load is a plain
+// one in an uninstrumented function on purpose: sync/atomic operations are
+// synchronisation in the eyes of the race detector, so an atomic peek would
+// order the peeking goroutine after the last goroutine that unlocked the
+// mutex (hiding races) and would itself be reported against the plain
+// initialisation of a mutex that another task has just allocated.  An aligned
+// 32-bit load is atomic on the platforms this runs on, and only one task runs
+// at a time.
 //
 //go:norace
 func mutexLocked(mu *sync.Mutex) bool {
-	return atomic.LoadInt32((*int32)(unsafe.Pointer(mu)))&1 != 0
+	return *(*int32)(unsafe.Pointer(mu))&1 != 0
 }
 
 // CheckMutexLayout verifies the assumption behind mutexLocked.
